@@ -48,7 +48,11 @@ func (c07) RealVsStub() map[string]string {
 type C07Unit struct {
 	Cfg       engine.Config `json:"cfg"`
 	PrefixCap int           `json:"prefix_cap"`
-	Seed      int64         `json:"seed"`
+	// AbsorbedFaults: number of single ERR faults (at non-read events) that are additionally tried;
+	// runs that still report success are put through the same power-loss exploration (-1 = none, 0 = all).
+	AbsorbedFaults int   `json:"absorbed_faults"`
+	Seed           int64 `json:"seed"`
+	Fault          *simfs.Fault `json:"fault,omitempty"` // set for the absorbed-fault legs
 }
 
 func (c07) Units(tier string, seed int64) ([]core.Unit, error) {
@@ -59,13 +63,21 @@ func (c07) Units(tier string, seed int64) ([]core.Unit, error) {
 		if !strings.HasPrefix(cfg.Op, "font") {
 			continue
 		}
-		_ = o
-		u := C07Unit{Cfg: cfg, PrefixCap: 4, Seed: int64(rng.Uint64() >> 1)}
+		if o.NaturalFail {
+			continue
+		}
+		u := C07Unit{Cfg: cfg, PrefixCap: 4, Seed: int64(rng.Uint64() >> 1), AbsorbedFaults: 10}
 		if tier != "quick" {
 			u.PrefixCap = 12
+			u.AbsorbedFaults = 0 // all
 		}
 		b, _ := json.Marshal(u)
 		units = append(units, b)
+		if cfg.Rel == ops.RelFresh && (cfg.Op == "font-ttf" || cfg.Op == "font-ttc" || cfg.Op == "fonts-batch2") {
+			u.Cfg.Rel = ops.RelSymlinkDir
+			b, _ := json.Marshal(u)
+			units = append(units, b)
+		}
 	}
 	return units, nil
 }
@@ -217,6 +229,9 @@ func (d *diskModel) feed(e simfs.Event, data []byte) {
 			break
 		}
 		ino, ok := d.vol[p]
+		if !ok && (e.Op == "open" || e.Op == "opendir") {
+			break // a read-only open of something the model does not track (reached through a symlink)
+		}
 		if !ok {
 			n := d.newInode(false)
 			ino = n.id
@@ -316,6 +331,7 @@ type C07Replay struct {
 	J      int            `json:"metadata_prefix"`
 	Lower  map[string]int `json:"lowered,omitempty"` // inode path (at crash, volatile) -> number of writes durable
 	AllMin bool           `json:"all_min"`
+	Fault  *simfs.Fault   `json:"absorbed_fault,omitempty"`
 }
 
 type c07Eval struct {
@@ -403,7 +419,11 @@ func c07Explore(u C07Unit, only *C07Replay) (res core.UnitResult) {
 	var ev *c07Eval
 	var rep0, rep1 map[string]string
 	var model *diskModel
-	r, err := engine.Run(cfg, engine.Options{KeepData: true,
+	var faults []simfs.Fault
+	if u.Fault != nil {
+		faults = []simfs.Fault{*u.Fault}
+	}
+	r, err := engine.Run(cfg, engine.Options{KeepData: true, Faults: faults,
 		BeforeRun: func(r *engine.Result) {
 			rep0 = repsOf(r.Env.Root, r.S0)
 			model, _ = buildModel(r)
@@ -415,12 +435,32 @@ func c07Explore(u C07Unit, only *C07Replay) (res core.UnitResult) {
 	}
 	res.Evaluations++
 	if r.Err != nil || r.Panicked {
-		res.Probes["install_failed_without_fault"]++
+		if u.Fault != nil {
+			res.Probes["faulted_install_failed_(not_C07's_subject)"]++
+		} else {
+			res.Probes["install_failed_without_fault"]++
+		}
 		return
+	}
+	if u.Fault != nil {
+		if len(r.Fired) == 0 {
+			return
+		}
+		res.Probes["fault_absorbed_install_reported_success"]++
+		res.FaultFired["ERR(absorbed)"]++
 	}
 	for _, e := range r.Events {
 		res.EventsSeen[e.Op]++
 		model.feed(e, r.Sim.WriteData[e.Seq])
+	}
+	if cfg.Rel == ops.RelSymlinkDir {
+		// snapshots see the real directory; the model and the targets use the path the caller gave
+		for k, v := range rep1 {
+			if strings.HasPrefix(k, "realfonts/") {
+				rep1["fonts/"+strings.TrimPrefix(k, "realfonts/")] = v
+			}
+		}
+		res.Probes["font_dir_is_symlink_configs"]++
 	}
 	scratch, _ := os.MkdirTemp(engine.ScratchBase(), "c07-")
 	defer os.RemoveAll(scratch)
@@ -506,7 +546,7 @@ func c07Explore(u C07Unit, only *C07Replay) (res core.UnitResult) {
 					return total
 				}
 				desc := func() C07Replay {
-					rp := C07Replay{Cfg: cfg, Crash: pt.seq, J: j, AllMin: c.min}
+					rp := C07Replay{Cfg: cfg, Crash: pt.seq, J: j, AllMin: c.min, Fault: u.Fault}
 					if c.lower != nil {
 						rp.Lower = map[string]int{}
 						for id, k := range c.lower {
@@ -565,7 +605,63 @@ func (c07) RunUnit(raw core.Unit, tier string, seed int64) core.UnitResult {
 	if err := json.Unmarshal(raw, &u); err != nil {
 		return core.UnitResult{Trouble: err.Error()}
 	}
-	return c07Explore(u, nil)
+	res := c07Explore(u, nil)
+	if res.Trouble != "" || u.AbsorbedFaults < 0 {
+		return res
+	}
+	// absorbed-fault legs: a call that swallows an error (documented as a warning) and still
+	// reports success owes the same durability
+	rec, err := engine.Run(u.Cfg, engine.Options{})
+	if err != nil || rec.Err != nil {
+		return res
+	}
+	var cands []simfs.Fault
+	for _, e := range rec.Events {
+		switch e.Op {
+		case "read", "pread", "open", "stat", "lstat", "fstat":
+			continue
+		}
+		cands = append(cands, simfs.Fault{Addr: e.Addr(), Kind: simfs.KErr, Errno: int(simfs.ErrnosFor(e.Op)[0]), Seq: e.Seq})
+	}
+	rng := rand.New(rand.NewPCG(uint64(u.Seed), 7))
+	if u.AbsorbedFaults > 0 && len(cands) > u.AbsorbedFaults {
+		// removals are where errors get absorbed: keep all of them, sample the rest
+		var keep, rest []simfs.Fault
+		for _, f := range cands {
+			if f.Addr.Op == "remove" || f.Addr.Op == "removeall" {
+				keep = append(keep, f)
+			} else {
+				rest = append(rest, f)
+			}
+		}
+		rng.Shuffle(len(rest), func(i, j int) { rest[i], rest[j] = rest[j], rest[i] })
+		for len(keep) < u.AbsorbedFaults && len(rest) > 0 {
+			keep = append(keep, rest[0])
+			rest = rest[1:]
+		}
+		cands = keep
+	}
+	for _, f := range cands {
+		f := f
+		fu := u
+		fu.Fault = &f
+		fu.AbsorbedFaults = -1
+		fr := c07Explore(fu, nil)
+		if fr.Trouble != "" {
+			res.Trouble = fr.Trouble
+			return res
+		}
+		res.Evaluations += fr.Evaluations
+		res.Nontrivial = append(res.Nontrivial, fr.Nontrivial...)
+		res.Violations = append(res.Violations, fr.Violations...)
+		for k, v := range fr.Probes {
+			res.Probes[k] += v
+		}
+		for k, v := range fr.FaultFired {
+			res.FaultFired[k] += v
+		}
+	}
+	return res
 }
 
 func (c07) Replay(payload json.RawMessage) ([]core.Violation, error) {
@@ -573,7 +669,7 @@ func (c07) Replay(payload json.RawMessage) ([]core.Violation, error) {
 	if err := json.Unmarshal(payload, &rp); err != nil {
 		return nil, err
 	}
-	res := c07Explore(C07Unit{Cfg: rp.Cfg, PrefixCap: 1 << 20}, &rp)
+	res := c07Explore(C07Unit{Cfg: rp.Cfg, PrefixCap: 1 << 20, Fault: rp.Fault, AbsorbedFaults: -1}, &rp)
 	if res.Trouble != "" {
 		return nil, fmt.Errorf("%s", res.Trouble)
 	}
